@@ -312,6 +312,67 @@ func additiveBounds(phi *ssa.Phi) (lo *int64, hi *int64) {
 	return
 }
 
+type lockStepRel struct{ s1, s2, c int64 }
+
+// lockStep: a and b are phis of one block such that on every incoming edge either both carry
+// integer constants (loop entry) or both carry themselves plus a constant (a cycle). Then
+// s1*b - s2*a is invariant, where s1, s2 are the steps of a and b; returns that relation when
+// the steps are the same on every cycle edge and the constant is the same on every entry edge.
+func lockStep(a, b *ssa.Phi) (lockStepRel, bool) {
+	if a.Block() != b.Block() || len(a.Edges) != len(b.Edges) {
+		return lockStepRel{}, false
+	}
+	step := func(phi *ssa.Phi, e ssa.Value) (int64, bool) {
+		bo, ok := e.(*ssa.BinOp)
+		if !ok || (bo.Op != token.ADD && bo.Op != token.SUB) || bo.X != ssa.Value(phi) {
+			return 0, false
+		}
+		k, isC := constInt(bo.Y)
+		if !isC {
+			return 0, false
+		}
+		if bo.Op == token.SUB {
+			k = -k
+		}
+		return k, true
+	}
+	var rel lockStepRel
+	haveStep, haveInit := false, false
+	for i := range a.Edges {
+		ia, aC := constInt(a.Edges[i])
+		ib, bC := constInt(b.Edges[i])
+		sa, aS := step(a, a.Edges[i])
+		sb, bS := step(b, b.Edges[i])
+		switch {
+		case aS && bS:
+			if haveStep && (rel.s1 != sa || rel.s2 != sb) {
+				return lockStepRel{}, false
+			}
+			rel.s1, rel.s2, haveStep = sa, sb, true
+		case aC && bC:
+			_ = ia
+			_ = ib
+		default:
+			return lockStepRel{}, false
+		}
+	}
+	if !haveStep || (rel.s1 == 0 && rel.s2 == 0) {
+		return lockStepRel{}, false
+	}
+	for i := range a.Edges {
+		ia, aC := constInt(a.Edges[i])
+		ib, bC := constInt(b.Edges[i])
+		if aC && bC {
+			c := rel.s1*ib - rel.s2*ia
+			if haveInit && c != rel.c {
+				return lockStepRel{}, false
+			}
+			rel.c, haveInit = c, true
+		}
+	}
+	return rel, haveInit
+}
+
 // induct tries to establish phi ⋈ bound(q) by induction over the closure of phis that feed phi:
 // assume it for every phi of the closure, and show that every non-phi value entering the closure
 // satisfies it at the end of the predecessor block it comes from.
@@ -1024,6 +1085,23 @@ func (p *prover) proveWith(b *ssa.BasicBlock, extra func(), goals func() []Lin) 
 			p.tried[phi] = true
 			if _, _, ok := intSize(p.w, phi.Type()); !ok {
 				continue
+			}
+			// lock-step induction variables of the same loop header: k1*φ2 - k2*φ1 is constant
+			for _, in := range phi.Block().Instrs {
+				other, isPhi := in.(*ssa.Phi)
+				if !isPhi {
+					break
+				}
+				if other == phi {
+					continue
+				}
+				if k, ok := lockStep(phi, other); ok {
+					// k.s1*other - k.s2*phi == k.c
+					e := p.lin(other).scale(ratInt(k.s1)).sub(linAtom(n).scale(ratInt(k.s2))).addK(-k.c)
+					why := fmt.Sprintf("induction (lock-step): %d*%s - %d*%s = %d on entry and after every cycle", k.s1, Term(other), k.s2, Term(phi), k.c)
+					p.inv = append(p.inv, Fact{e, why}, Fact{e.neg(), why})
+					progress = true
+				}
 			}
 			lo, hi := additiveBounds(phi)
 			if lo != nil {
